@@ -631,6 +631,9 @@ def run(desc):
                             if np.shares_memory(np.asarray(getattr(s2, a)), np.asarray(getattr(screens[kk], a))):
                                 pred = "materialised screen shares %s with its parent" % a
         f = _features(desc) + (["refused"] if isinstance(impl, ImplError) else [])
+        if not isinstance(v, ImplError) and not isinstance(impl, ImplError) and (
+                [int(x) for x in v.sample_ids] != impl[2] or _tid_rows(v.treatment_ids, v.size) != impl[1] or [int(x) for x in v.plate_ids] != impl[3]):
+            f.append("ids_renumbered")      # allowed: to_screen passes no mappings; the property promises rows, not ids
         return dict(wire=[1, wscreens, wire_tree(tree)], impl=impl, pred=pred, features=f, cmp=cmp_result())
     if k == "plates":
         s = screens[desc["k"]]
@@ -735,5 +738,7 @@ def shrink(desc):
 
 
 def signature(desc, res):
+    import re
+
     p = res.get("pred") or ""
-    return "%s:%s" % (desc["kind"], p.split(":")[0][:60])
+    return "%s:%s" % (desc["kind"], re.sub(r"\s*[\[\(%0-9].*", "", p)[:60])
